@@ -104,13 +104,13 @@ namespace glm
 				result = abs(dot(m[i], m[j])) <= epsilon;
 		}
 
-		if(result)
+		if(result && C == R)
 		{
-			mat<C, R, T, Q> tmp = transpose(m);
-			for(length_t i(0); result && i < m.length(); ++i)
+			mat<R, C, T, Q> tmp = transpose(m);
+			for(length_t i(0); result && i < tmp.length(); ++i)
 			{
 				result = isNormalized(tmp[i], epsilon);
-				for(length_t j(i + 1); result && j < m.length(); ++j)
+				for(length_t j(i + 1); result && j < tmp.length(); ++j)
 					result = abs(dot(tmp[i], tmp[j])) <= epsilon;
 			}
 		}
